@@ -926,8 +926,20 @@ impl Callbacks for Facts {
         let mut owners: Vec<LocalDefId> = tcx.hir_body_owners().collect();
         // closures / coroutines are body owners too (hir_body_owners includes them)
         let mut bodies: Vec<(LocalDefId, Body<'tcx>)> = vec![];
+        // constants first: building a function body whose types mention a constant (`[0u8; MAX_LEN]`) evaluates
+        // that constant, which steals its mir_built
+        owners.sort_by_key(|d| match tcx.def_kind(d.to_def_id()) {
+            DefKind::Const { .. } | DefKind::AssocConst { .. } | DefKind::AnonConst | DefKind::InlineConst | DefKind::Static { .. } => 0,
+            _ => 1,
+        });
         for def in owners {
-            let b = tcx.mir_built(def).borrow().clone();
+            let built = tcx.mir_built(def);
+            let b = if built.is_stolen() {
+                // already consumed by constant evaluation (a constant used in the type of another constant)
+                tcx.mir_for_ctfe(def.to_def_id()).clone()
+            } else {
+                built.borrow().clone()
+            };
             bodies.push((def, b));
         }
         // Phase 2: export.
